@@ -1093,11 +1093,23 @@ func (e *Exec) contractLoopInvs(fr *Frame, h *ssa.BasicBlock, li *loopInfo, phis
 		lks = append(lks, key)
 	}
 	sort.Strings(lks)
-	for _, key := range lks {
-		cls := c.Loops[key]
+	for _, key0 := range lks {
+		cls := c.Loops[key0]
+		key, nth := key0, 0
+		if i := strings.LastIndex(key0, "#"); i >= 0 {
+			if _, err := fmt.Sscan(key0[i+1:], &nth); err == nil && nth > 0 {
+				key = key0[:i]
+			} else {
+				nth = 0
+			}
+		}
 		if !strings.Contains(li.key, key) && !strings.Contains(loopKeyNamed(h), key) {
 			continue
 		}
+		if nth != 0 && loopRank(fr.fn, h, key) != nth {
+			continue
+		}
+		key = key0
 		e.usedLoopKeys[key] = true
 		for i, cl := range c.Steps[key] {
 			cl := cl
@@ -1231,4 +1243,24 @@ func (en *evalEnv) shadowed(name string) bool {
 		}
 	}
 	return false
+}
+
+// loopRank: 1-based rank of the loop with header h among the loops of fn whose key contains key (block order).
+func loopRank(fn *ssa.Function, h *ssa.BasicBlock, key string) int {
+	rank := 0
+	for _, b := range fn.Blocks {
+		isHead := false
+		for _, p := range b.Preds {
+			if b.Dominates(p) {
+				isHead = true
+			}
+		}
+		if isHead && (strings.Contains(loopKey(b), key) || strings.Contains(loopKeyNamed(b), key)) {
+			rank++
+			if b == h {
+				return rank
+			}
+		}
+	}
+	return 0
 }
